@@ -153,6 +153,7 @@ def layoutOk (f : Frame) : Bool :=
   && (!f.alignedVecSR || f.xOff % f.srSize 1 == 0)
   && (if f.usesStack then (f.finalSize + f.arch.retSize) % f.finalAlign == 0 else f.finalSize == f.ppSize)
   && (f.hasDA || f.saOffSp == f.finalSize + f.arch.retSize)
+  && decide (f.callAlign ≤ f.finalAlign) && decide (f.localAlign ≤ f.finalAlign)
 
 /-! ### monitor: the property on one (frame, prolog, epilog, entry stack position) -/
 
